@@ -7,11 +7,13 @@
 // GMP for generated keys.  Keys: a committed pool (512..4096 bits incl.
 // 1016/1017/1025/1031/2056, e in {3, 17, 65537}) with both factor orders and
 // generated leading zero bytes on every field.
+#include <map>
 #include "common/vf.hpp"
 #include "../fixtures/rsa_pool.h"
 #include <gmp.h>
 #include <memory>
 #include <openssl/evp.h>
+#include <openssl/err.h>
 #include <openssl/rsa.h>
 #include <openssl/bn.h>
 #include <openssl/core_names.h>
@@ -605,9 +607,102 @@ static void k_keygen(Tape &t)
 	if (stats.want_sample()) stats.sample(fmt("keygen rsa_%s size=%u e=%u: primes, n, dp, dq, iq, compute_modulus/pubexp/privexp consistent", g.name, size, ee));
 }
 
+// ---------------------------------------------------------------- K1b: PKCS#1 v1.5 with a modulus around the smallest size that holds the block
+// A signature block is 00 01 FF{>=8} 00 DigestInfo: with SHA-384 / SHA-512 that needs 78 / 94 bytes, more than the
+// library's 512-bit minimum, so a key can be too short for the hash.  Keys of every byte length around that limit
+// (and every bit length inside the byte) are made here with GMP from the tape: signing must succeed exactly when the
+// block fits, give OpenSSL's bytes when it does, and no verifier may accept a block with fewer than eight FF bytes.
+static std::map<unsigned, std::unique_ptr<Key>> small_keys;
+static Key *small_key(unsigned bits, unsigned variant)
+{
+	unsigned id = bits * 8 + variant;
+	auto it = small_keys.find(id);
+	if (it != small_keys.end()) return it->second.get();
+	gmp_randstate_t rs;
+	gmp_randinit_mt(rs);
+	gmp_randseed_ui(rs, 0x5EED0000u + id);
+	std::unique_ptr<Key> k;
+	for (int tries = 0; tries < 2000 && !k; tries++) {
+		unsigned pb = (bits + 1) / 2, qb = bits - pb;
+		Z p, q;
+		mpz_urandomb(p.v, rs, pb); mpz_setbit(p.v, pb - 1); mpz_setbit(p.v, pb - 2); mpz_nextprime(p.v, p.v);
+		mpz_urandomb(q.v, rs, qb); mpz_setbit(q.v, qb - 1); if (tries % 2 == 0) mpz_setbit(q.v, qb - 2); mpz_nextprime(q.v, q.v);
+		if (mpz_sizeinbase(p.v, 2) != pb || mpz_sizeinbase(q.v, 2) != qb || mpz_cmp(p.v, q.v) == 0) continue;
+		Z n; mpz_mul(n.v, p.v, q.v);
+		if (mpz_sizeinbase(n.v, 2) != bits) continue;
+		if (variant & 1) std::swap(p, q);
+		k = make_key(p, q, 65537);
+	}
+	gmp_randclear(rs);
+	if (!k) failf("harness: no %u-bit key found", bits);
+	Key *r = k.get();
+	small_keys[id] = std::move(k);
+	return r;
+}
+
+static void k_pkcs1_boundary(Tape &t)
+{
+	const HashDef &h = HASHES[3 + t.u8() % 2];          // SHA-384, SHA-512
+	Bytes hash = t.filled(h.len);
+	Bytes di = digest_info(h, hash, true);
+	size_t need = di.size() + 11;
+	int delta = (int)(t.u8() % 13) - 10;                // -10 .. +2 bytes around the limit
+	size_t nlen = (size_t)((int)need + delta);
+	if (nlen < 64) nlen = 64;
+	unsigned bits = (unsigned)(8 * nlen) - t.u8() % 8;
+	if (bits < 512) bits = 512;
+	Key &k = *small_key(bits, t.u8() % 2);
+	set_encoding(k, &t);
+	bool fits = k.nlen >= need;
+	Bytes ossl(k.nlen);
+	bool ossl_ok;
+	{
+		EVP_PKEY_CTX *c = EVP_PKEY_CTX_new(k.pkey, nullptr);
+		size_t sl = ossl.size();
+		ossl_ok = EVP_PKEY_sign_init(c) > 0 && EVP_PKEY_CTX_set_rsa_padding(c, RSA_PKCS1_PADDING) > 0 && EVP_PKEY_CTX_set_signature_md(c, h.md()) > 0
+			&& EVP_PKEY_sign(c, ossl.data(), &sl, hash.data(), hash.size()) > 0;
+		EVP_PKEY_CTX_free(c);
+		ERR_clear_error();
+		if (ossl_ok) ossl.resize(sl);
+	}
+	VF_CHECK(ossl_ok == fits, "harness: OpenSSL %s a %s signature with a %u-bit key (block needs %zu bytes, modulus has %zu)", ossl_ok ? "made" : "refused", h.name, k.bits, need, k.nlen);
+	for (auto &im : impls) {
+		Bytes sig(k.nlen + 8, 0xA5);
+		uint32_t r = im.sign(h.oid, hash.data(), hash.size(), &k.sk, sig.data());
+		VF_CHECK(sig[k.nlen] == 0xA5, "rsa_%s pkcs1_sign wrote past the %zu-byte signature", im.name, k.nlen);
+		sig.resize(k.nlen);
+		if (fits) {
+			VF_CHECK(r == 1, "rsa_%s pkcs1_sign refused %s with a %u-bit key although the block (%zu bytes) fits the %zu-byte modulus", im.name, h.name, k.bits, need, k.nlen);
+			VF_CHECK(sig == ossl, "rsa_%s pkcs1_sign (%u bits, %s, %zu FF bytes) differs from OpenSSL's signature", im.name, k.bits, h.name, k.nlen - di.size() - 3);
+			uint8_t out[64];
+			VF_CHECK(im.vrfy(sig.data(), sig.size(), h.oid, h.len, &k.pk, out) == 1 && memcmp(out, hash.data(), h.len) == 0, "rsa_%s pkcs1_vrfy rejects the signature (%u bits, %s)", im.name, k.bits, h.name);
+		} else {
+			VF_CHECK(r == 0, "rsa_%s pkcs1_sign returned 1 for %s with a %u-bit key: the %zu-byte modulus cannot hold 00 01, eight FF bytes, 00 and the %zu-byte DigestInfo "
+				"(the value it produced is rejected by every PKCS#1 verifier)", im.name, h.name, k.bits, k.nlen, di.size());
+		}
+	}
+	// a block with fewer than eight FF bytes, made with the private key by GMP, is refused by every verifier
+	if (!fits && k.nlen >= di.size() + 3) {
+		Bytes em = emsa_pkcs1(k, di);
+		if (mpz_cmp(zfrom(em.data(), em.size()).v, k.n.v) < 0) {
+			Bytes forged = gmp_private(k, em);
+			for (auto &im : impls) {
+				uint8_t out[64];
+				VF_CHECK(im.vrfy(forged.data(), forged.size(), h.oid, h.len, &k.pk, out) == 0, "rsa_%s pkcs1_vrfy accepts a block with only %zu FF bytes (%u-bit key, %s)", im.name, k.nlen - di.size() - 3, k.bits, h.name);
+			}
+			stats.cls("pkcs1:short-ff-run-refused");
+		}
+	}
+	stats.cls(fits ? "pkcs1:modulus-just-large-enough" : "pkcs1:modulus-too-short-for-hash");
+	stats.eval(fmt("p1b/%s/%u/%d", h.name, k.bits, (int)fits));
+	if (stats.want_sample()) stats.sample(fmt("pkcs1 boundary: %s, %u-bit key (%zu bytes, block needs %zu): sign %s by all implementations", h.name, k.bits, k.nlen, need, fits ? "== OpenSSL" : "refused"));
+}
+
 void target_run(Tape &t)
 {
-	switch (t.u8() % 16) {
+	unsigned sel0 = t.u8();
+	if (sel0 >= 240) { k_pkcs1_boundary(t); return; }
+	switch (sel0 % 16) {
 	case 0: case 1: case 2: k_raw(t); break;
 	case 3: case 4: case 5: case 6: k_pkcs1(t); break;
 	case 7: case 8: case 9: k_pss(t); break;
